@@ -270,11 +270,24 @@ def concatenate_clauses(ctx):
         isinstance(c, ast.Call) and isinstance(c.func, ast.Attribute) and c.func.attr == 'append' and pseudo(c.func.value) == lst
         for c in ast.walk(st))]
     okp = len(post) == 1 and isinstance(post[0], ast.If) and not post[0].orelse and bool(after_state)
+    okq = okp
     if okp:
-        pc = cond_atoms(post[0].test, True)
-        okp = bool(pc) and len({a_[0] for a_ in pc}) == 1 and any((v_, c_, False) in pc for v_, c_ in after_state)
+        t_ = post[0].test
+        conj = t_.values if isinstance(t_, ast.BoolOp) and isinstance(t_.op, ast.And) else [t_]
+        pc = [a_ for c_ in conj for a_ in cond_atoms(c_, True)]
+        def excluded(v_, c_):
+            # the condition rules the state value out: `v != c`, or `v == <another value>` of the same state variable
+            return (v_, c_, False) in pc or any(a_[0] == v_ and a_[2] and a_[1] != c_ and a_[1] not in ('True', 'False') for a_ in pc)
+        okp = bool(pc) and any(excluded(v_, c_) for v_, c_ in after_state)
+        # ... and only when a run was started at all: with no selected resource there is no stream for the target, so its
+        # descriptor must not be added (the scan is still in its initial state: that state is excluded too)
+        okq = any(excluded(v_, c_) for v_, c_ in initial_state) or \
+            any(isinstance(c_, ast.Compare) and counter is not None and pseudo(c_.left) == counter for c_ in conj)
     run.check(okp, 'CAT', where(repo, post[0]) if post else f.where, f.qualname, 'if not <after the run>: append(target)',
               'the target descriptor is not appended at the end exactly when no gap followed the selected run')
+    run.check(okq, 'CAT', where(repo, post[0]) if post else f.where, f.qualname, 'target appended at the end only if a run was started',
+              'with a selector that matches no resource the target descriptor is still appended although no stream is emitted for it: '
+              'descriptors and streams no longer pair up (the run fails when the results are read)')
     # stream phase
     rls = [rl for rl in find_resloops(repo, res, func, ['package']) if rl.kind == 'for']
     sigs, _ = resloop_signature(repo, res, rls[0])
